@@ -17,7 +17,7 @@ import (
 const c09MEM = vf.MEM
 
 func c09Inv(b *ByteBuffer) bool {
-	return vf.All(0 <= b.si, b.si <= b.ri, b.ri <= b.wi, b.wi == len(b.data), len(b.data) <= cap(b.data), cap(b.data) <= c09MEM,
+	return vf.All(0 <= b.si, b.si <= b.ri, b.ri <= b.wi, b.wi == len(b.data), len(b.data) <= cap(b.data),
 		b.SaveLen()+b.ReadLen()+b.WriteLen() == b.Len(),
 		b.SaveLen() == b.si, b.ReadLen() == b.ri-b.si, b.WriteLen() == b.wi-b.ri)
 }
@@ -165,7 +165,6 @@ func VerifC09_Reserve() {
 	si, ri, wi, c0 := b.si, b.ri, b.wi, cap(b.data)
 	P := c09Snap(b)
 	b.Reserve(n)
-	vf.Assume(cap(b.data) <= c09MEM)
 	vf.Assert("inv", c09Inv(b))
 	vf.Assert("reserve-indices", vf.All(b.si == si, b.ri == ri, b.wi == wi))
 	vf.Assert("reserve-room", vf.All(b.Reserved() >= n, cap(b.data) >= c0, b.Reserved() == cap(b.data)-wi))
@@ -181,7 +180,6 @@ func VerifC09_Write() {
 	si, ri, wi := b.si, b.ri, b.wi
 	P := c09Snap(b)
 	n, err := b.Write(bb)
-	vf.Assume(cap(b.data) <= c09MEM)
 	vf.Assert("inv", c09Inv(b))
 	vf.Assert("write-ret", vf.All(n == m, err == nil))
 	vf.Assert("write-indices", vf.All(b.si == si, b.ri == ri, b.wi == wi+m))
@@ -205,8 +203,7 @@ func VerifC09_WriteByteString() {
 	P := c09Snap(b)
 	if vf.Bool("string") {
 		n, err := b.WriteString("hello")
-		vf.Assume(cap(b.data) <= c09MEM)
-		vf.Assert("inv-str", c09Inv(b))
+			vf.Assert("inv-str", c09Inv(b))
 		vf.Assert("writestring", vf.All(n == 5, err == nil, b.wi == wi+5, b.ri == ri, b.si == si,
 			b.data[wi] == 'h', b.data[wi+1] == 'e', b.data[wi+4] == 'o'))
 		c09Same("writestring-keeps-old", b, P, wi)
@@ -215,7 +212,6 @@ func VerifC09_WriteByteString() {
 	}
 	x := vf.Uint8("x")
 	err := b.WriteByte(x)
-	vf.Assume(cap(b.data) <= c09MEM)
 	vf.Assert("inv", c09Inv(b))
 	vf.Assert("writebyte", vf.All(err == nil, b.wi == wi+1, b.ri == ri, b.si == si, b.data[wi] == x))
 	c09Same("writebyte-keeps-old", b, P, wi)
